@@ -85,6 +85,7 @@ void h_encode_header(void)
  * the n octets leaves the object) */
 void h_parse_header(void)
 {
+  GHOST_HAVOC();
   IN(size_t, in_n)
   ASSUME(in_n <= 16);
   IN_MEM(in_buf, in_n)
@@ -96,6 +97,7 @@ void h_parse_header(void)
 /* longer inputs: only the first 16 octets matter */
 void h_parse_header_long(void)
 {
+  GHOST_HAVOC();
   IN(size_t, in_n)
   ASSUME(in_n >= 16 && in_n <= 4096);
   IN_MEM(in_buf, in_n)
@@ -106,6 +108,7 @@ void h_parse_header_long(void)
 
 void h_payload_plausible(void)
 {
+  GHOST_HAVOC();
   IN(int, in_type) IN(uint8_t, in_opts) IN(uint32_t, in_bs) IN(size_t, in_psize)
   ASSUME(RPW_TYPE_IN(in_type));
   RPFrame *f = malloc(sizeof(RPFrame)); ASSUME(f != NULL);
@@ -117,7 +120,8 @@ void h_payload_plausible(void)
 
 void h_check_payload(void)
 {
-  IN(int, in_type) IN(uint8_t, in_opts) IN(uint32_t, in_bs) IN(uint16_t, in_plcrc)
+  GHOST_HAVOC();
+  IN(int, in_type) IN(uint8_t, in_opts) IN(uint32_t, in_bs) IN(uint16_t, in_plcrc) IN(uint16_t, in_hdcrc)
   ASSUME(RPW_TYPE_IN(in_type) && in_opts <= 7);
   size_t psize = SPEC_PAYLOAD_OCTETS((unsigned)in_type, in_opts, in_bs);
   ASSUME(psize <= CRC_NMAX);
@@ -126,7 +130,7 @@ void h_check_payload(void)
   g_crcT = T;
   RPFrame *f = malloc(sizeof(RPFrame)); ASSUME(f != NULL);
   f->header.type = (RPFrameType)in_type; f->header.options = in_opts;
-  f->header.blocksize = in_bs; f->header.plcrc = in_plcrc;
+  f->header.blocksize = in_bs; f->header.plcrc = in_plcrc; f->header.hdcrc = in_hdcrc;
   f->payload.size = psize; f->payload.data = in_payload;
   check_payload(f);
   VERIF_CANARY();
@@ -136,18 +140,22 @@ void h_check_payload(void)
  * sequence of every length 0 .. REGP_PF_MAX */
 void h_parse_frame(void)
 {
+  GHOST_HAVOC();
   IN(size_t, in_n)
   ASSUME(in_n <= REGP_PF_MAX);
   /* fixed-size block, `used` symbolic (as in regp_recv: allocator block with
    * the frame filling part of it); a symbolic-size block makes the trace axiom
    * intractable (measured: > 10 GiB).  Reads past `used` are decided by the
-   * exact-size targets parse_header and check_payload. */
-  IN_MEM(in_block, sizeof(RPFrame) + REGP_PF_MAX)
-  RPW_TRACE(T, REGP_PF_MAX, in_block + sizeof(RPFrame) + (in_n >= 12 ? SPEC_HLEN(SPEC_F_OPTS(in_block + sizeof(RPFrame))) : 0),
-            (in_n >= 12 && in_n > SPEC_HLEN(SPEC_F_OPTS(in_block + sizeof(RPFrame))))
-              ? in_n - SPEC_HLEN(SPEC_F_OPTS(in_block + sizeof(RPFrame))) : 0)
+   * exact-size targets parse_header and check_payload.  The raw frame is a
+   * named input of its own so that its first octets show in counterexamples. */
+  IN_MEM(in_raw, REGP_PF_MAX)
+  unsigned char *block = malloc(sizeof(RPFrame) + REGP_PF_MAX); ASSUME(block != NULL);
+  unsigned char *raw = block + sizeof(RPFrame);
+  memcpy(raw, in_raw, REGP_PF_MAX);
+  size_t hlen = in_n >= 12 ? SPEC_HLEN(SPEC_F_OPTS(raw)) : 0;
+  RPW_TRACE(T, REGP_PF_MAX, raw + hlen, in_n > hlen ? in_n - hlen : 0)
   g_crcT = T;
-  ByteBuffer fb = { in_block, sizeof(RPFrame) + REGP_PF_MAX, sizeof(RPFrame) + in_n, 0 };
+  ByteBuffer fb = { block, sizeof(RPFrame) + REGP_PF_MAX, sizeof(RPFrame) + in_n, 0 };
   parse_frame(&fb);
   VERIF_CANARY();
 }
@@ -521,6 +529,7 @@ static void rpw_copy16(unsigned char *dst, const unsigned char *src)
 
 void h_hdr_err_2bit(void)
 {
+  GHOST_HAVOC();
   RPW_ACCEPTED_SERIAL_HEADER()
   IN(unsigned, in_b1) IN(unsigned, in_b2)
   ASSUME(in_b1 >= 16 && in_b1 <= in_b2 && in_b2 < hbits);
@@ -551,6 +560,7 @@ void h_hdr_err_2bit(void)
 #define RPW_HDR_REGION(b) ((b) < 96u ? 0 : (b) < 112u ? 1 : 2)
 void h_hdr_err_burst(void)
 {
+  GHOST_HAVOC();
   RPW_ACCEPTED_SERIAL_HEADER()
   IN(unsigned, in_start) IN(uint16_t, in_pattern)
   ASSUME(in_pattern != 0 && (in_pattern & 1u));
@@ -581,6 +591,7 @@ void h_hdr_err_burst(void)
  * damaged frame comes out as. */
 void h_lemma_word0_bit(void)
 {
+  GHOST_HAVOC();
   IN(size_t, in_n) IN(uint16_t, in_crc1) IN(uint16_t, in_crc2) IN(unsigned, in_b)
   ASSUME(in_n <= REGP_PF_MAX && in_b < 16);
   IN_MEM(in_f, REGP_PF_MAX)
@@ -596,6 +607,7 @@ void h_lemma_word0_bit(void)
  * payload size) */
 void h_lemma_trunc_ext(void)
 {
+  GHOST_HAVOC();
   IN(size_t, in_n) IN(size_t, in_n2) IN(uint16_t, in_crc1) IN(uint16_t, in_crc2)
   ASSUME(in_n <= REGP_PF_MAX && in_n2 <= REGP_PF_MAX && in_n2 != in_n);
   IN_MEM(in_f, REGP_PF_MAX)
@@ -618,6 +630,7 @@ void h_lemma_trunc_ext(void)
  * payload length. */
 void h_lemma_crc_step_linear(void)
 {
+  GHOST_HAVOC();
   IN(uint16_t, in_c1) IN(uint16_t, in_c2) IN(uint8_t, in_o1) IN(uint8_t, in_o2)
   CHECK(crc16_octet((uint16_t)(in_c1 ^ in_c2), (uint8_t)(in_o1 ^ in_o2))
         == (uint16_t)(crc16_octet(in_c1, in_o1) ^ crc16_octet(in_c2, in_o2)),
@@ -628,6 +641,7 @@ void h_lemma_crc_step_linear(void)
 
 void h_lemma_crc_buf_linear(void)
 {
+  GHOST_HAVOC();
   IN(size_t, in_len)
   ASSUME(in_len <= RPW_ERR_PAYLOAD_MAX);
   IN_MEM(in_m, in_len)
@@ -641,6 +655,7 @@ void h_lemma_crc_buf_linear(void)
 
 void h_payload_err_2bit(void)
 {
+  GHOST_HAVOC();
   IN(size_t, in_len) IN(unsigned, in_b1) IN(unsigned, in_b2)
   ASSUME(in_len >= 1 && in_len <= RPW_ERR_PAYLOAD_MAX);
   ASSUME(in_b1 <= in_b2 && in_b2 < 8u * in_len);
@@ -654,6 +669,7 @@ void h_payload_err_2bit(void)
 
 void h_payload_err_burst(void)
 {
+  GHOST_HAVOC();
   IN(size_t, in_len) IN(unsigned, in_start) IN(uint16_t, in_pattern)
   ASSUME(in_len >= 1 && in_len <= RPW_ERR_PAYLOAD_MAX);
   ASSUME(in_pattern != 0 && (in_pattern & 1u) && in_start < 8u * in_len);
